@@ -58,6 +58,32 @@ def clone (h : Heap α) (c : Handle) : CloneMode → Heap α × Handle
     let (h2, vs) := h1.dupVals c.vals
     (h2, ⟨vs, is⟩)
 
+/-- `MemoryPool::allocate_memory` + `MemoryPool::convert`: a fresh array holding the converted content -/
+def convVal (f : α → α) (h : Heap α) (id : Nat) : Heap α × Nat :=
+  ({ h with vals := h.vals.push ((h.vals.getD id #[]).map f) }, h.vals.size)
+
+def convVals (f : α → α) (h : Heap α) : List Nat → Heap α × List Nat
+  | [] => (h, [])
+  | id :: ids =>
+    let (h1, n) := h.convVal f id
+    let (h2, ns) := h1.convVals f ids
+    (h2, n :: ns)
+
+/-- `Container<DT,IT>::assign(const Container<DT2,IT2>& other)`, array by array: an array whose element type changes
+    (`dDiff` for the value arrays, `iDiff` for the index arrays) is allocated anew and converted (`f` = the value
+    conversion; the index conversion does not change any index that fits), an array of unchanged type is SHARED
+    with `other` (reference count increased) -/
+def assign (f : α → α) (h : Heap α) (c : Handle) (dDiff iDiff : Bool) : Heap α × Handle :=
+  let hv := if dDiff then h.convVals f c.vals else (h, c.vals)
+  let hi := if iDiff then hv.1.dupIdxs c.idxs else (hv.1, c.idxs)
+  (hi.1, ⟨hv.2, hi.2⟩)
+
+/-- the cross-type clone `X<DT,IT>::clone(const X<DT2,IT2>& other, mode)` =
+    `Container t(other.size()); t.assign(other); clone(t, mode);` -/
+def xclone (f : α → α) (h : Heap α) (c : Handle) (dDiff iDiff : Bool) (m : CloneMode) : Heap α × Handle :=
+  let a := h.assign f c dDiff iDiff
+  a.1.clone a.2 m
+
 /-- write `v` at position `k` of the first value array of `c` -/
 def write (h : Heap α) (c : Handle) (k : Nat) (v : α) : Heap α :=
   match c.vals with
@@ -92,5 +118,16 @@ def cloneObservation [DecidableEq α] (h : Heap α) (c : Handle) (m : CloneMode)
   let w1 := decide ((h1.write c 0 mark).read d 0 dflt = mark)
   let w2 := decide ((h1.write d (n - 1) mark).read c (n - 1) dflt = mark)
   (sv, si, w1, w2)
+
+/-- number of index arrays (position by position) that are the same memory -/
+def sharedIdx (c d : Handle) : Nat := ((c.idxs.zip d.idxs).filter fun p => p.1 == p.2).length
+
+/-- pairwise observation of the harness between two containers of one heap: value array the same memory, number of
+    shared index arrays, write through the first seen by the second, and vice versa -/
+def pairObservation [DecidableEq α] (h : Heap α) (c d : Handle) (mark dflt : α) : Bool × Nat × Bool × Bool :=
+  let sv := !c.vals.isEmpty && !d.vals.isEmpty && c.vals.head? == d.vals.head?
+  let n := h.valSize c
+  if n = 0 ∨ d.vals.isEmpty then (sv, sharedIdx c d, false, false) else
+  (sv, sharedIdx c d, decide ((h.write c 0 mark).read d 0 dflt = mark), decide ((h.write d (n - 1) mark).read c (n - 1) dflt = mark))
 
 end FeatModel.LA
